@@ -103,8 +103,8 @@ def r01a(ctx, rep):
                               'value written to %s has no source in common with what any persist call logs (written: %s)' % (fld, sorted(wsig)[:4]))
             else:
                 rep.holds('R01a', f, site, how)
-    rep.floor('R01a', 'writes to PersistentState.current_term', n_term, 8)
-    rep.floor('R01a', 'writes to PersistentState.voted_for', n_vote, 9)
+    rep.floor('R01a', 'writes to PersistentState.current_term', n_term, 4)
+    rep.floor('R01a', 'writes to PersistentState.voted_for', n_vote, 4)
 
 
 def _guards_of(f, cd, bb):
